@@ -148,6 +148,60 @@ pub fn make_config(bits: u8) -> ParserConfig {
     c
 }
 
+/// The same final configuration reached through a seed-dependent *history of builder
+/// calls*: options are first toggled to the opposite of their final value (sometimes), the
+/// final values are then set in a permuted order, and a setter whose final value is the
+/// default `false` is sometimes not called at all. A configuration is the set of enabled
+/// options, however the builder got there.
+pub fn make_config_seeded(bits: u8, seed: u64) -> ParserConfig {
+    fn set(c: &mut ParserConfig, i: usize, v: bool) {
+        match i {
+            0 => c.allow_spaces_after_header_name_in_responses(v),
+            1 => c.allow_obsolete_multiline_headers_in_responses(v),
+            2 => c.allow_multiple_spaces_in_request_line_delimiters(v),
+            3 => c.allow_multiple_spaces_in_response_status_delimiters(v),
+            4 => c.allow_space_before_first_header_name(v),
+            5 => c.ignore_invalid_headers_in_responses(v),
+            _ => c.ignore_invalid_headers_in_requests(v),
+        };
+    }
+    const BITS: [u8; 7] = [C_SPACES_AFTER_NAME, C_MULTILINE, C_MULTISPACE_REQ, C_MULTISPACE_RESP, C_SPACE_BEFORE_FIRST, C_IGNORE_RESP, C_IGNORE_REQ];
+    let mut x = seed | 1;
+    let mut next = || {
+        x ^= x << 13;
+        x ^= x >> 7;
+        x ^= x << 17;
+        x
+    };
+    let mut c = ParserConfig::default();
+    if seed % 4 == 0 {
+        // the plain builder use
+        for i in 0..7 {
+            set(&mut c, i, bits & BITS[i] != 0);
+        }
+        return c;
+    }
+    let mut touched = [false; 7];
+    // noise: opposite values first
+    for _ in 0..(next() % 4) {
+        let i = (next() % 7) as usize;
+        set(&mut c, i, bits & BITS[i] == 0);
+        touched[i] = true;
+    }
+    // final values in a rotated / reversed order
+    let start = (next() % 7) as usize;
+    let rev = next() % 2 == 0;
+    for k in 0..7 {
+        let i = if rev { (start + 7 - k) % 7 } else { (start + k) % 7 };
+        let v = bits & BITS[i] != 0;
+        if !v && !touched[i] && next() % 2 == 0 {
+            continue; // default already false
+        }
+        set(&mut c, i, v);
+    }
+    c
+}
+
 #[derive(Clone, Copy, PartialEq, Eq, Debug, Hash, PartialOrd, Ord)]
 pub enum ErrKind {
     HeaderName,
@@ -550,7 +604,8 @@ impl Ctx {
             canary_ok: true,
         };
 
-        let config = make_config(spec.cfg);
+        // the builder history is a deterministic function of the case (replayable)
+        let config = make_config_seeded(spec.cfg, crate::engine::fnv(&spec.buf[..spec.buf.len().min(24)], spec.buf.len() as u64 * 131 + spec.cfg as u64));
         let collect = |hs: &[Header<'_>], obs: &mut Obs| {
             obs.hslice = Sl { ptr: hs.as_ptr() as usize, len: hs.len() };
             for h in hs {
